@@ -281,7 +281,7 @@ func (sc *specCtx) ident(name string, subs map[string]SpecExpr) Value {
 	}
 	obj, ok := sc.lookupLocal(name)
 	if !ok {
-		sc.errorf("unknown name %q in %q", name, sc.c.Text)
+		sc.errorf("unknown name %q in %q (at %v valid=%v)", name, sc.c.Text, sc.u.eng.root.Fset.Position(sc.pos), sc.pos.IsValid())
 	}
 	switch o := obj.(type) {
 	case *types.Var:
